@@ -128,10 +128,30 @@ def wall_inflight(kind):
     return {"kind": "c16.wall", "limit": 50, "pause_ms": 250, "horizon": 3350, "ops": ops}
 
 
+def wall_remhead(d1=150, d2=350, trem=50, later=False, limit=50):
+    """Removal of the head of the timeline with a later job behind it (the shape of the former finding C16-rem-head-disarms):
+    the timer stays set for the removed job's time; the job behind it must still fire on time."""
+    ops = [{"t": 50, "op": "add", "id": "a", "delay": d1}, {"t": 50, "op": "add", "id": "b", "delay": d2}, {"t": trem, "op": "rem", "id": "a"}]
+    if later:
+        ops.append({"t": 50 + d2 + 200, "op": "add", "id": "c", "delay": 50})
+    return {"kind": "c16.wall", "limit": limit, "pause_ms": 250, "horizon": ops[-1]["t"] + (750 if later else d2 + 550), "ops": ops}
+
+
 def wall_directed():
     failing = {"kind": "c16.wall", "limit": 50, "pause_ms": 250, "horizon": 3350,
                "ops": [{"t": 50, "op": "add", "id": "e", "period": 1000, "dur": 25, "fails": True}, {"t": 50, "op": "add", "id": "x", "delay": 150, "dur": 0, "fails": True}]}
-    return [wall_inflight(k) for k in ("rem", "add1", "addr")] + [failing]
+    return [wall_inflight(k) for k in ("rem", "add1", "addr")] + [failing, wall_remhead(), wall_remhead(50, 250, 50, later=True)]
+
+
+def inflight_cases():
+    """Rem / replacing Add landing inside a blocking Fn of a recurring job (deterministic: the Fn waits for the operation)."""
+    return [{"kind": "c16.reminflight", "variant": v} for v in ("rem", "remrem", "add1", "addr")]
+
+
+def crolt_wall_jitter(rng):
+    """Wall-clock run of the real work() with a non-zero MaxJitter: an every-second job (and a one-shot) polled every 20 ms."""
+    return {"kind": "c16.crolt.wall", "partitions": 1, "ttl_ms": 3600000, "jitter_ms": rng.choice([400, 900, 900]), "horizon": 3300, "poll_ms": 20,
+            "jobs": [{"acc": "r", "id": "1", "expr": "* * * * * * *"}, {"acc": "r", "id": "2", "expr": "%dms" % rng.choice([150, 450])}], "deletes": []}
 
 
 ACCS = ["a", "b", "c"]
